@@ -125,6 +125,11 @@ def _tame(recipe, mode, eq_type):
         e.pop("tap_step_degree", None)          # tap phase shifters: same limitation as shift_degree
         if e["t"] == "gen" and e.get("slack") and mode != "slack-gen":
             e = {"t": "ext_grid", "bus": e["bus"], "vm_pu": e["vm_pu"], "va_degree": 0.0}
+        if e["t"] in ("gen", "ext_grid"):
+            # setpoints 0.97..1.04 at neighbouring buses of a short line drive circulating reactive power of 10-100x the line
+            # rating; the sub-problems get_equivalent solves (boundary voltages fixed) then have several solutions and its
+            # power flows (default start) may find another one than the given operating point -> narrow band of setpoints
+            e["vm_pu"] = round(1.0 + (e["vm_pu"] - 1.0) * 0.25, 4)
         if e["t"] == "ext_grid" or (e["t"] == "gen" and e.get("slack")):
             if e["bus"] in slack_buses:         # "only one slack at individual bus" (assert in ward_generation.py)
                 continue
@@ -145,7 +150,12 @@ def _tame(recipe, mode, eq_type):
 
 @st.composite
 def _case(draw, tier, mode=None):
-    mode = mode or draw(netgen.weighted(MODE_WEIGHTS))
+    if mode is None:
+        # sampled_from over a long weighted list is far from uniform in practice (late entries drawn ~10x too rarely):
+        # a Hypothesis-seeded Random picks the mode instead (deterministic for a given VERIF_SEED)
+        rnd = draw(st.randoms(use_true_random=False))
+        names = sorted(MODE_WEIGHTS)
+        mode = rnd.choices(names, weights=[MODE_WEIGHTS[m] for m in names])[0]
     if mode in ("rei-mixed-bus", "rei-asymmetric-impedance", "rei-integrated-gens"):
         eq_type = "rei"
     elif mode in ("phase-shift", "detached-boundary"):
